@@ -394,17 +394,19 @@ def _is_char_boundary(I, a, ci, dt):
     return is_boundary(s.b, i)
 
 
-@reg('str::trim', 'str::trim_start', 'str::trim_end', 'str::trim_ascii')
+@reg('str::trim', 'str::trim_start', 'str::trim_end', 'str::trim_ascii', 'str::trim_ascii_start', 'str::trim_ascii_end')
 def _trim(I, a, ci, dt):
     s = as_sstr(I, a[0])
     chars = chars_of(s.b)
     lo = 0
     hi = len(chars)
-    if ci.method in ('trim', 'trim_start', 'trim_ascii'):
-        while lo < hi and I.branch(char_is_ws(chars[lo][1])):
+    # trim_ascii* strip u8::is_ascii_whitespace (no vertical tab, nothing beyond ASCII)
+    ws = (lambda c: byte_in(c, (9, 10, 12, 13, 32))) if 'ascii' in ci.method else char_is_ws
+    if ci.method in ('trim', 'trim_start', 'trim_ascii', 'trim_ascii_start'):
+        while lo < hi and I.branch(ws(chars[lo][1])):
             lo += 1
-    if ci.method in ('trim', 'trim_end', 'trim_ascii'):
-        while hi > lo and I.branch(char_is_ws(chars[hi - 1][1])):
+    if ci.method in ('trim', 'trim_end', 'trim_ascii', 'trim_ascii_end'):
+        while hi > lo and I.branch(ws(chars[hi - 1][1])):
             hi -= 1
     a0 = chars[lo][0] if lo < len(chars) else len(s.b)
     b0 = (chars[hi - 1][0] + chars[hi - 1][2]) if hi > lo else a0
